@@ -5,7 +5,9 @@ package idp
 import (
 	"context"
 	"crypto/rsa"
+	"errors"
 	"fmt"
+	"io"
 	"sync"
 
 	"github.com/zitadel/saml/pkg/provider/key"
@@ -125,8 +127,8 @@ func faultyKey(k *key.CertificateAndKey, kind string) (*key.CertificateAndKey, e
 	switch kind {
 	case "":
 		return k, nil
-	case "error":
-		return nil, fmt.Errorf("injected fault")
+	case "error", "error:canceled", "error:deadline", "error:eof", "error:notfound":
+		return nil, FaultErr(kind)
 	case "nilrecord":
 		return nil, nil
 	case "nokey":
@@ -159,8 +161,8 @@ func (s *Storage) GetResponseSigningKey(ctx context.Context) (*key.CertificateAn
 func (s *Storage) GetEntityByID(ctx context.Context, entityID string) (*serviceprovider.ServiceProvider, error) {
 	s.mu.Lock()
 	defer s.mu.Unlock()
-	if s.enterCtx(ctx, "GetEntityByID", entityID) != "" {
-		return nil, fmt.Errorf("injected fault")
+	if k := s.enterCtx(ctx, "GetEntityByID", entityID); k != "" {
+		return nil, FaultErr(k)
 	}
 	sp, ok := s.SPs[entityID]
 	if !ok {
@@ -174,8 +176,8 @@ func (s *Storage) GetEntityByID(ctx context.Context, entityID string) (*servicep
 func (s *Storage) GetEntityIDByAppID(ctx context.Context, appID string) (string, error) {
 	s.mu.Lock()
 	defer s.mu.Unlock()
-	if s.enterCtx(ctx, "GetEntityIDByAppID", appID) != "" {
-		return "", fmt.Errorf("injected fault")
+	if k := s.enterCtx(ctx, "GetEntityIDByAppID", appID); k != "" {
+		return "", FaultErr(k)
 	}
 	e, ok := s.Apps[appID]
 	if !ok {
@@ -190,8 +192,8 @@ func (s *Storage) CreateAuthRequest(ctx context.Context, req *samlp.AuthnRequest
 	if req.Issuer != nil {
 		iss = req.Issuer.Text
 	}
-	if s.enterCtx(ctx, "CreateAuthRequest", acsUrl, protocolBinding, relayState, applicationID, req.Id, iss) != "" {
-		return nil, fmt.Errorf("injected fault")
+	if k := s.enterCtx(ctx, "CreateAuthRequest", acsUrl, protocolBinding, relayState, applicationID, req.Id, iss); k != "" {
+		return nil, FaultErr(k)
 	}
 	s.nextID++
 	a := &AuthReq{ID: fmt.Sprintf("%s-%d", s.IDPrefix, s.nextID), AppID: applicationID, RelayState: relayState, ACS: acsUrl, Binding: protocolBinding,
@@ -202,8 +204,8 @@ func (s *Storage) CreateAuthRequest(ctx context.Context, req *samlp.AuthnRequest
 func (s *Storage) AuthRequestByID(ctx context.Context, id string) (models.AuthRequestInt, error) {
 	s.mu.Lock()
 	defer s.mu.Unlock()
-	if s.enterCtx(ctx, "AuthRequestByID", id) != "" {
-		return nil, fmt.Errorf("injected fault")
+	if k := s.enterCtx(ctx, "AuthRequestByID", id); k != "" {
+		return nil, FaultErr(k)
 	}
 	a, ok := s.Requests[id]
 	if !ok {
@@ -226,8 +228,8 @@ func setUser(u *User, info models.AttributeSetter) {
 func (s *Storage) SetUserinfoWithUserID(ctx context.Context, applicationID string, userinfo models.AttributeSetter, userID string, attributes []int) error {
 	s.mu.Lock()
 	defer s.mu.Unlock()
-	if s.enterCtx(ctx, "SetUserinfoWithUserID", applicationID, userID) != "" {
-		return fmt.Errorf("injected fault")
+	if k := s.enterCtx(ctx, "SetUserinfoWithUserID", applicationID, userID); k != "" {
+		return FaultErr(k)
 	}
 	u, ok := s.Users[userID]
 	if !ok {
@@ -239,8 +241,8 @@ func (s *Storage) SetUserinfoWithUserID(ctx context.Context, applicationID strin
 func (s *Storage) SetUserinfoWithLoginName(ctx context.Context, userinfo models.AttributeSetter, loginName string, attributes []int) error {
 	s.mu.Lock()
 	defer s.mu.Unlock()
-	if s.enterCtx(ctx, "SetUserinfoWithLoginName", loginName) != "" {
-		return fmt.Errorf("injected fault")
+	if k := s.enterCtx(ctx, "SetUserinfoWithLoginName", loginName); k != "" {
+		return FaultErr(k)
 	}
 	u, ok := s.Logins[loginName]
 	if !ok {
@@ -252,8 +254,8 @@ func (s *Storage) SetUserinfoWithLoginName(ctx context.Context, userinfo models.
 func (s *Storage) Health(ctx context.Context) error {
 	s.mu.Lock()
 	defer s.mu.Unlock()
-	if s.enterCtx(ctx, "Health") != "" {
-		return fmt.Errorf("injected fault")
+	if k := s.enterCtx(ctx, "Health"); k != "" {
+		return FaultErr(k)
 	}
 	return nil
 }
@@ -287,4 +289,25 @@ func (s *Storage) CountOp(op string) int {
 		}
 	}
 	return n
+}
+
+// ErrorKinds are the shapes of error a storage may return: an opaque error, wrapped context errors (a backend call timing out
+// or being cancelled while the request is alive), io.EOF, a sentinel "not found" value
+var ErrorKinds = []string{"error", "error:canceled", "error:deadline", "error:eof", "error:notfound"}
+
+var ErrNotFound = errors.New("not found")
+
+// FaultErr is the error returned for an injected fault of the given kind
+func FaultErr(kind string) error {
+	switch kind {
+	case "error:canceled":
+		return fmt.Errorf("storage backend: %w", context.Canceled)
+	case "error:deadline":
+		return fmt.Errorf("storage backend: %w", context.DeadlineExceeded)
+	case "error:eof":
+		return io.EOF
+	case "error:notfound":
+		return ErrNotFound
+	}
+	return fmt.Errorf("injected fault")
 }
